@@ -133,6 +133,34 @@ func (g *Gen) wordCoefRandom() (*big.Int, int) {
 	return g.wordRealise(w), w.k
 }
 
+// single-bit coefficients 2^n and 2^n - 1 for every n up to 112 (plus the largest coefficient's neighbours): a mask or a
+// shift that is one bit off in the field layout shows on exactly one of them
+func bitCoefs() []*big.Int {
+	var out []*big.Int
+	for n := uint(0); n <= 113; n++ {
+		w := new(big.Int).Lsh(big.NewInt(1), n)
+		if w.Cmp(cMax) <= 0 {
+			out = append(out, w)
+		}
+		m := new(big.Int).Sub(w, big.NewInt(1))
+		if m.Sign() > 0 && m.Cmp(cMax) <= 0 {
+			out = append(out, m)
+		}
+	}
+	return out
+}
+
+func (g *Gen) bitGrid(share float64, f func(x d128.Decimal)) {
+	bc := bitCoefs()
+	g.gridRun(len(bc)*2, share, func(i int) {
+		e := []int{0, eMin, eMax, -1, 1, 4, -6000}[g.r.Intn(7)]
+		if i%2 == 1 {
+			e = g.r.Intn(41) - 20
+		}
+		f(mk(g.r.Intn(2) == 0, bc[i/2], e))
+	})
+}
+
 // ---- uses -----------------------------------------------------------------------------------------------------
 
 // Add / Sub: the word-structured operand is the one that gets aligned (divided down) -- in both operand orders, at the gap
